@@ -8,7 +8,7 @@ for d in seeded/*/; do
   n=$(basename $d); p=${n%-*}
   props=$p; [ $n = C07-1 ] && props="C07 C08"
   for q in $props; do
-    git -C $VERIF_REPO apply $d/patch.diff || { echo "SEED $n $q APPLY-FAILED"; continue; }
+    git -C $VERIF_REPO apply $PWD/$d/patch.diff || { echo "SEED $n $q APPLY-FAILED"; continue; }
     out=$(./check $q --tier quick 2>&1); rc=$?
     git -C $VERIF_REPO checkout -- .
     echo "SEED $n check=$q rc=$rc $(echo "$out" | grep -E '^--- violation' | head -2 | tr '\n' ' ')"
